@@ -145,8 +145,33 @@ def check_pair(ctx, su: Setup, a: int, b: int):
             ctx.ob("C06.1", f"{tag}: cell_to_parent(child, {a}) is the parent", st, core.loc(SER, pouts[0].node), text)
         else:
             bad = [o for o in pouts if o.kind == "raise" and not _opaque_path(o)]
-            ctx.ob("C06.1", f"{tag}: cell_to_parent(child, {a}) has {len(pouts)} outcomes", core.VIOLATED if bad else core.UNDECIDED,
-                   where, "; ".join(f"{o.kind} {_exc(o.value) if o.kind == 'raise' else o.value} on [{describe_path(o.state)}]" for o in pouts[:3]))
+            wit = None
+            if not bad:
+                # several return paths: a child that satisfies the condition of one path and gets another cell than the parent
+                from .compact_model import find_valuation
+                for o in pouts:
+                    if o.kind != "return" or not isinstance(o.value, Lin) or _opaque_path(o) or o.value.has_opaque():
+                        continue
+                    conds = [(cnd, t) for cnd, t, _ in o.state.path]
+                    forms = [o.value, c] + [x for cnd, t in conds for x in (cnd.left, cnd.right)]
+
+                    def pred(vals, conds=conds):
+                        for i, (cnd, t) in enumerate(conds):
+                            l, r = vals[2 + 2 * i], vals[3 + 2 * i]
+                            if {"==": l == r, "!=": l != r, "<": l < r, "<=": l <= r, ">": l > r, ">=": l >= r}[cnd.op] != t:
+                                return False
+                        return vals[0] != vals[1]
+                    w_ = find_valuation(forms, pred)
+                    if w_ is not None:
+                        wit = (o, w_)
+                        break
+            if wit is not None:
+                o, (vals, point) = wit
+                ctx.bad("C06.1", f"{tag}: cell_to_parent(child, {a}) is the parent", core.loc(SER, o.node),
+                        f"on the path [{describe_path(o.state)}] it returns {o.value}, which is {vals[0]:#x} at {point}; the parent is {vals[1]:#x}")
+            else:
+                ctx.ob("C06.1", f"{tag}: cell_to_parent(child, {a}) has {len(pouts)} outcomes", core.VIOLATED if bad else core.UNDECIDED,
+                       where, "; ".join(f"{o.kind} {_exc(o.value) if o.kind == 'raise' else o.value} on [{describe_path(o.state)}]" for o in pouts[:3]))
         # decode for the distinctness argument
         douts = interp.run_function(SER, "deserialize", [e])
         cell = douts[0].value if len(douts) == 1 and douts[0].kind == "return" and isinstance(douts[0].value, CellV) else None
